@@ -175,6 +175,7 @@ Subtree ts_subtree_new_leaf(
   bool is_inline = (
     symbol <= UINT8_MAX &&
     !has_external_tokens &&
+    !depends_on_column &&
     ts_subtree_can_inline(padding, size, lookahead_bytes)
   );
 
